@@ -636,6 +636,12 @@ func (in *Interp) global(g *ssa.Global) *Cell {
 			return c
 		}
 	}
+	if g.Pkg != nil && g.Pkg.Pkg.Path() == "time" && (g.Name() == "UTC" || g.Name() == "Local") {
+		// distinct location objects (the time package's initialiser is not run)
+		c.V = PtrV{in.newCell(in.zero(deref(deref(g.Type()))))}
+		in.globals[g] = c
+		return c
+	}
 	c.V = in.zero(deref(g.Type()))
 	in.globals[g] = c
 	return c
